@@ -39,6 +39,7 @@ type BGVCase struct {
 	Degree2     int         `json:"degree2"`     // > 0: a second polynomial evaluated afterwards with the SAME evaluator and the same
 	Coeffs2     [][]uint64  `json:"coeffs2"`     // input object (ciphertext, or the PowerBasis that now holds the powers of the first run)
 	Target2     uint64      `json:"target2"`
+	Owners2     []int       `json:"owners2"` // slot mapping of the second polynomial vector (differs from the first)
 }
 
 func (c BGVCase) RandSeed() uint64 { return c.Seed }
@@ -204,6 +205,9 @@ func genBGV(t *rapid.T) BGVCase {
 				c.Coeffs2 = append(c.Coeffs2, rapid.SliceOfN(rapid.Uint64Range(0, T-1), c.Degree2+1, c.Degree2+1).Draw(t, fmt.Sprintf("coeffs2_%d", i)))
 			}
 			c.Target2 = genUnitModT(t, T, "target2")
+			if c.Kind == "vector" && rapid.Bool().Draw(t, "owners2") {
+				c.Owners2 = genOwners(t, slots, npoly)
+			}
 		}
 	}
 	return c
@@ -289,7 +293,7 @@ func runBGV(c BGVCase, rec *h.Rec) error {
 	}
 
 	// polynomial object
-	mkPol := func(coeffs [][]uint64, flagged bool) (interface{}, error) {
+	mkPol := func(coeffs [][]uint64, flagged bool, owners []int) (interface{}, error) {
 		parity := func(i int) string {
 			if flagged {
 				return c.Shapes[i].Parity
@@ -305,7 +309,7 @@ func runBGV(c BGVCase, rec *h.Rec) error {
 			p.Lazy = c.Lazy
 			return p, nil
 		}
-		pv, err := bgvpoly.NewPolynomialVector(coeffs, ownersToMapping(c.Owners, npoly))
+		pv, err := bgvpoly.NewPolynomialVector(coeffs, ownersToMapping(owners, npoly))
 		if err != nil {
 			return nil, h.Failf("C13:bgv:NewPolynomialVector", "%v", err)
 		}
@@ -315,7 +319,7 @@ func runBGV(c BGVCase, rec *h.Rec) error {
 		}
 		return pv, nil
 	}
-	pol, err := mkPol(c.Coeffs, true)
+	pol, err := mkPol(c.Coeffs, true, c.Owners)
 	if err != nil {
 		return err
 	}
@@ -391,7 +395,7 @@ func runBGV(c BGVCase, rec *h.Rec) error {
 	}
 
 	// depth / scale / value contract of one evaluation
-	verify := func(out *rlwe.Ciphertext, coeffs [][]uint64, degree int, target rlwe.Scale, stage string) (bool, error) {
+	verify := func(out *rlwe.Ciphertext, coeffs [][]uint64, owners []int, degree int, target rlwe.Scale, stage string) (bool, error) {
 		depth := advertisedDepth(degree)
 		wantLevel := c.Level - depth
 		if c.Invariant {
@@ -415,7 +419,7 @@ func runBGV(c BGVCase, rec *h.Rec) error {
 			var want uint64
 			switch c.Kind {
 			case "vector":
-				if o := c.Owners[i]; o >= 0 {
+				if o := owners[i]; o >= 0 {
 					want = hornerModT(coeffs[o], values[i], T)
 				}
 			default:
@@ -442,7 +446,7 @@ func runBGV(c BGVCase, rec *h.Rec) error {
 		}
 		return true, nil
 	}
-	if ok, err := verify(out, c.Coeffs, c.Degree, target, ""); !ok {
+	if ok, err := verify(out, c.Coeffs, c.Owners, c.Degree, target, ""); !ok {
 		return err
 	}
 	if h := ctHash(ct); h != ctBefore {
@@ -453,7 +457,12 @@ func runBGV(c BGVCase, rec *h.Rec) error {
 	// evaluator buffers and - from a PowerBasis - the powers generated for the first polynomial)
 	if c.Degree2 > 0 {
 		rec.Class("second-polynomial")
-		pol2, err := mkPol(c.Coeffs2, false)
+		owners2 := c.Owners
+		if c.Owners2 != nil {
+			owners2 = c.Owners2
+			rec.Class("second-polynomial:other-mapping")
+		}
+		pol2, err := mkPol(c.Coeffs2, false, owners2)
 		if err != nil {
 			return err
 		}
@@ -476,14 +485,14 @@ func runBGV(c BGVCase, rec *h.Rec) error {
 			}
 			return h.Failf(key, "%s", msg)
 		}
-		if ok, err := verify(out2, c.Coeffs2, c.Degree2, target2, ":second-use"); !ok {
+		if ok, err := verify(out2, c.Coeffs2, owners2, c.Degree2, target2, ":second-use"); !ok {
 			return err
 		}
 		if h := ctHash(ct); h != ctBefore {
 			return failInput(mode, "second", ctBefore, h)
 		}
 		// the first result must not have been touched by the second evaluation
-		if ok, err := verify(out, c.Coeffs, c.Degree, target, ":first-result-after-second-use"); !ok {
+		if ok, err := verify(out, c.Coeffs, c.Owners, c.Degree, target, ":first-result-after-second-use"); !ok {
 			return err
 		}
 	}
